@@ -295,3 +295,114 @@ Definition stitch (l : layout) (img : list Z) (fit : option (list fit_entry)) (a
   | None => (img, false)
   | Some es => stitch_loop l img img es acm bpm km
   end.
+
+(* ------------------------------------------------------------------ *)
+(** * The BootGuard object across calls (state passing)
+
+    What the C19 operations read and write of one BootGuard object: the IBBSegments list of
+    every SE element and the digest list of SE[0] (BG 1.0: the single Digest): algorithm id
+    and the preimage of the stored HashBuffer ([None]: a buffer no call of this model
+    produced, e.g. the empty buffer of a new manifest).  Nothing else survives a call:
+    the image (and its layout, FIT, CBFS directory) is an argument of every operation, so
+    whatever an earlier call was given cannot influence a later one. *)
+
+Record bg_state : Type := mkBG { bg_segs : list (list segment); bg_digs : list (Z * option (list Z)) }.
+
+Definition se_count (st : bg_state) : Z := zlen (bg_segs st).
+Definition segs_of (st : bg_state) (i : Z) : list segment := nth (Z.to_nat i) (bg_segs st) [].
+
+(** [SE[i].IBBSegments = make(...)] + the indexed copies: the old list is REPLACED *)
+Definition put_segs (st : bg_state) (i : Z) (s : list segment) : bg_state :=
+  mkBG (set_nth (Z.to_nat i) s (bg_segs st)) (bg_digs st).
+
+(** algorithms for which Algorithm.Hash() of the manifest library returns a hash *)
+Definition alg_hashable (ver alg : Z) : bool :=
+  if ver =? 1 then (alg =? 4) || (alg =? 11)
+  else (alg =? 4) || (alg =? 11) || (alg =? 12) || (alg =? 13) || (alg =? 18).
+
+Inductive op : Type :=
+(* the caller assigns SE[se].IBBSegments (config file, ReadJSON, a parsed manifest) *)
+| OSetSegs (se : Z) (segs : list segment)
+(* the caller replaces the digest list of SE[0] by empty digests of the given algorithms *)
+| OSetAlgs (algs : list Z)
+(* CreateIBBSegments(se, flags, file) on a UEFI image with the given FIT *)
+| OCreateSegs (se flags : Z) (fit : option (list fit_entry))
+(* the same on a coreboot image *)
+| OCreateSegsCbfs (se flags file_size cbfs_off : Z) (files : list cbfs_file)
+(* GetIBBsDigest(image, name of alg) *)
+| OGetDigest (alg : Z) (l : layout) (img : list Z)
+(* CreateIBBDigest(file) *)
+| OCreateDigest (l : layout) (img : list Z)
+(* IBBsMatchBPMDigest(image) *)
+| OMatch (img : list Z).
+
+Inductive result : Type :=
+| RNone
+| RUnit (r : outcome unit)
+| RDigest (r : outcome (Z * list Z))
+| RBool (r : outcome bool).
+
+Definition unit_of {A} (o : outcome A) : outcome unit :=
+  match o with Ok _ => Ok tt | Err c => Err c | Panic => Panic | OutOfFuel => OutOfFuel end.
+
+(** the version switch at the end of CreateIBBSegments: an error or a panic (SE index out
+    of range) happens before the object is touched *)
+Definition store_created (st : bg_state) (i : Z) (r : outcome (list segment)) : bg_state * result :=
+  match r with
+  | Ok s => (put_segs st i s, RUnit (Ok tt))
+  | _ => (st, RUnit (unit_of r))
+  end.
+
+(** the loop of CreateIBBDigest over the digest list: entries before a failing one keep
+    their new digest *)
+Fixpoint create_digest_loop (ver : Z) (l : layout) (img : list Z) (segs : list segment)
+         (digs : list (Z * option (list Z))) : list (Z * option (list Z)) * outcome unit :=
+  match digs with
+  | [] => ([], Ok tt)
+  | (a, old) :: t =>
+      if alg_name_roundtrips ver a then
+        match get_ibbs_digest ver a l img segs with
+        | Ok ap => let '(t', r) := create_digest_loop ver l img segs t in ((a, Some (snd ap)) :: t', r)
+        | o => (digs, unit_of o)
+        end
+      else (digs, Err 5)
+  end.
+
+(** fiano ValidateIBB against the stored digest [0]: "no IBB hashes" / "invalid hash
+    function" / hash mismatch are all reported as (false, error) *)
+Definition match_stored (ver : Z) (st : bg_state) (img : list Z) : outcome bool :=
+  if se_count st =? 0 then Panic
+  else match bg_digs st with
+       | [] => Ok false
+       | (a, d) :: _ =>
+           if alg_hashable ver a then
+             bind (validator_preimage img (segs_of st 0)) (fun q =>
+               Ok (match d with Some p => zlist_eqb p q | None => false end))
+           else Ok false
+       end.
+
+Definition step (ver : Z) (st : bg_state) (o : op) : bg_state * result :=
+  match o with
+  | OSetSegs i s => (if 0 <=? i then put_segs st i s else st, RNone)
+  | OSetAlgs algs => (mkBG (bg_segs st) (map (fun a => (a, None)) algs), RNone)
+  | OCreateSegs i flags fit => store_created st i (create_ibb_segments (se_count st) i flags fit)
+  | OCreateSegsCbfs i flags fs co files =>
+      store_created st i (create_ibb_segments_cbfs (se_count st) i flags fs co files)
+  | OGetDigest alg l img =>
+      (st, RDigest (if alg_supported ver alg && (se_count st =? 0) then Panic
+                    else get_ibbs_digest ver alg l img (segs_of st 0)))
+  | OCreateDigest l img =>
+      if se_count st =? 0 then (st, RUnit Panic)
+      else let '(d, r) := create_digest_loop ver l img (segs_of st 0) (bg_digs st) in
+           (mkBG (bg_segs st) d, RUnit r)
+  | OMatch img => (st, RBool (match_stored ver st img))
+  end.
+
+Fixpoint run (ver : Z) (st : bg_state) (ops : list op) : bg_state * list result :=
+  match ops with
+  | [] => (st, [])
+  | o :: t => let '(st1, r) := step ver st o in
+              let '(st2, rs) := run ver st1 t in (st2, r :: rs)
+  end.
+
+Definition final (ver : Z) (st : bg_state) (ops : list op) : bg_state := fst (run ver st ops).
